@@ -144,6 +144,12 @@ def finish(ctx, explanation, broken=None):
         'wall_s': round(time.time() - ctx.t0, 3),
         'violations': len(unlisted),
     }
+    try:
+        from .depends import DEPENDS
+        ev['coverage']['adopted_rules'] = [{'rules': rules, 'from_property': mod.upper(), 'necessary_because': why}
+                                           for mod, rules, why in DEPENDS.get(ctx.prop, []) if rules]
+    except Exception:
+        pass
     ev['coverage'].update(ctx.extra)
     if broken:
         ev['coverage']['analysis_broken'] = broken
